@@ -385,10 +385,11 @@ pub fn run(sink: &mut Sink, prop: &str, thorough: bool, seed: u64) {
     }
     // the private tokens through which Number (arbitrary_precision) and RawValue (raw_value) travel inside serde's data
     // model are ordinary JSON object keys as far as RFC 8259 is concerned: objects whose FIRST key decodes to one of them
-    if (prop == "C01" || prop == "C02") && (cfg!(feature = "ap") || cfg!(feature = "rv")) {
+    // (C09, thorough tier: the same inputs with the full outcome - message, category, line, column, three sources - compared)
+    if (prop == "C01" || prop == "C02" || (prop == "C09" && thorough)) && (cfg!(feature = "ap") || cfg!(feature = "rv")) {
         private_tokens(sink, &cfg, &mut r, thorough);
     }
-    if (prop == "C01" || prop == "C02") && cfg!(feature = "rv") {
+    if (prop == "C01" || prop == "C02" || (prop == "C09" && thorough)) && cfg!(feature = "rv") {
         raw_tokens(sink, &cfg, &mut r, thorough);
     }
     let toks = tokens();
